@@ -53,6 +53,8 @@ def cmd_replay(args) -> int:
             return 0
         with scratch_dir(f"vf-{pid}-rp-") as sd:
             ctx = Ctx(pid, rp.get("tier", "quick"), rp.get("seed", 0), sd)
+            if isinstance(rp["detail"], dict):
+                rp["detail"].setdefault("_signature", rp.get("signature", ""))
             still = mod.replay(ctx, rp["detail"])
         if still:
             print(f"VIOLATION property={pid} replay={args.path}")
